@@ -1,4 +1,6 @@
 import AcraModel.Props.C12
+import AcraModel.Props.C03
+import AcraModel.Props.C10
 /-!
 # C14 — no input can crash a handler or make it consume unbounded resources
 
@@ -11,7 +13,7 @@ Decoders without a model (SQL grammars, pg_query, YAML, ASN.1) are explored by t
 that part of C14 is exploration, not proof, and the evidence says so.
 -/
 namespace AcraModel.Props.C14
-open AcraModel AcraModel.Wire.LenEnc
+open AcraModel AcraModel.Wire.LenEnc AcraModel.Envelope
 
 /-- MySQL length-encoded integer reader never panics. -/
 theorem lenenc_int_no_panic (data : Bytes) : lengthEncodedInt data ≠ .panic :=
@@ -28,5 +30,48 @@ theorem lenenc_str_progress (data : Bytes) (v : Option Bytes) (n : Nat)
 
 theorem lenenc_skip_no_panic (data : Bytes) : skipLengthEncodedString data ≠ .panic :=
   C12.lenenc_skip_no_panic data
+
+/-! ## protected values, containers, column scans (proved in `Props/C03.lean`) -/
+
+/-- `ExtractAcraBlockFromData` never panics (length fields taken from the data are bounded). -/
+theorem extractBlock_no_panic : ∀ d : Bytes, extractBlock d ≠ .panic := C03.extractBlock_no_panic
+/-- `ValidateAcraStructLength` never panics. -/
+theorem validateStruct_no_panic : ∀ d : Bytes, validateStruct d ≠ .panic := C03.validateStruct_no_panic
+/-- `ExtractAcraStruct` never panics. -/
+theorem extractStruct_no_panic : ∀ d : Bytes, extractStruct d ≠ .panic := C03.extractStruct_no_panic
+/-- `DecryptRotatedAcrastruct` never panics, for every key list, context, input and crypto back end. -/
+theorem decryptStructRotated_no_panic :
+    ∀ (c : CryptoOps) (ctx d : Bytes) (keys : List Bytes), decryptStructRotated c ctx d keys ≠ .panic :=
+  C03.decryptStructRotated_no_panic
+/-- `DeserializeEncryptedData` never panics and never allocates more than the input holds. -/
+theorem deserialize_no_panic : ∀ d : Bytes, deserialize d ≠ .panic := C03.deserialize_no_panic
+theorem deserialize_alloc_bounded (d i : Bytes) (id : UInt8) : deserialize d = .ok (i, id) → i.length ≤ d.length :=
+  C03.deserialize_output_bound d i id
+/-- `ExtractSerializedContainer` never panics and, when it succeeds, tells the caller to advance by
+at least one byte and at most the bytes that are there – the column scan cannot loop or run out of range. -/
+theorem extractContainer_no_panic : ∀ d : Bytes, extractContainer d ≠ .panic := C03.extractContainer_no_panic
+theorem extractContainer_progress (d : Bytes) (n : Int) (cont : Bytes) (hd : d.length < 2^63) :
+    extractContainer d = .ok (n, cont) → 0 < n ∧ n ≤ d.length := C03.extractContainer_bounds d n cont hd
+/-- reveal / protect (registry handler) never panic. -/
+theorem reveal_no_panic : ∀ (c : CryptoOps) (kv : KeyView) (d : Bytes), reveal c kv d ≠ .panic := C03.reveal_no_panic
+theorem protect_no_panic :
+    ∀ (c : CryptoOps) (kv : KeyView) (k : Kind) (d rnd : Bytes), protect c kv k d rnd ≠ .panic := C03.protect_no_panic
+/-- `EnvelopeDetector.OnColumn` (any callback list) and the compatibility wrapper never panic; their
+termination is the well-founded recursion of `scan` / `processStructs` / `processBlocks`. -/
+theorem onColumn_no_panic : ∀ (cbs : List Callback) (d : Bytes), d.length < 2^63 → onColumn cbs d ≠ .panic :=
+  C03.onColumn_no_panic
+theorem onColumnCompat_no_panic :
+    ∀ (cbs : List Callback) (d : Bytes), d.length < 2^63 → onColumnCompat cbs d ≠ .panic := C03.onColumnCompat_no_panic
+/-- The scan's output is bounded by the input length times the largest replacement. -/
+theorem onColumn_output_bounded (cbs : List Callback) (B : Nat)
+    (hc : ∀ cb ∈ cbs, ∀ x b, cb x = .replaced b → b.length ≤ B) (rest out : Bytes) (hit : Bool) :
+    scan cbs rest = .ok out hit → out.length ≤ rest.length * max 1 B := C03.scan_output_bound cbs B hc rest out hit
+
+/-! ## token generators (proved in `Props/C10.lean`) -/
+
+/-- Token generation never panics, for every token type, length and random stream (the e-mail
+generator used to slice with a negative bound for values shorter than a TLD). -/
+theorem token_generator_no_panic (ty : Token.TokenType) (n : Nat) (d : Token.Draws) : Token.genToken ty n d ≠ .panic :=
+  C10.generator_never_panics ty n d
 
 end AcraModel.Props.C14
